@@ -14,7 +14,7 @@ Record cfg := mkCfg {
   c_do_import : bool;      (* standalone: validates names itself *)
   c_no_open : bool; c_no_opendir : bool; c_writeback : bool; c_killpriv : bool; c_xattr : bool;
   c_cache : N;             (* 0 Never, 1 Metadata, 2 Auto, 3 Always *)
-  c_ifh : bool             (* inode_file_handles: inodes are reopened with open_by_handle_at (needs CAP_DAC_READ_SEARCH) *)
+  c_ifh : bool             (* inode_file_handles: inodes are reopened with open_by_handle_at, always as root: no effect on the calls modelled *)
 }.
 
 Record idata := mkIdata { id_host : N; id_mode : N; id_ref : N }.
@@ -265,16 +265,15 @@ Definition create_opts (cf : cfg) : N :=
   if (c_cache cf =? 0) || (c_cache cf =? 1) then 1 else if c_cache cf =? 3 then 2 else 0.
 
 (* a host call made while the caller's credentials are installed, followed by do_lookup as root.
-   [file_inside]: the method calls data.get_file() INSIDE the set_creds scope (mkdir, symlink); with
-   inode_file_handles that is open_by_handle_at, which a non-root caller's credentials may not do *)
-Definition create_then_lookup (cf : cfg) (file_inside : bool) (s : pstate) (uid gid parent : N) (n : name)
+   The parent's descriptor (data.get_file(): with inode_file_handles an open_by_handle_at) is obtained
+   BEFORE set_creds in mkdir, mknod, symlink and create, i.e. with root's capabilities. *)
+Definition create_then_lookup (s : pstate) (uid gid parent : N) (n : name)
     (call : creds -> host -> N -> res N * host) : reply * option N * pstate :=
   match assoc parent (p_inodes s) with
   | None => (RpErr EBADF, None, s)
   | Some d =>
       let '(r, s1) := with_creds uid gid s (fun s0 =>
-                        if c_ifh cf && file_inside && negb (euid (p_creds s0) =? 0) then (Err EPERM, s0)
-                        else let (r, h') := call (p_creds s0) (p_host s0) (id_host d) in (r, with_host s0 h')) in
+                        let (r, h') := call (p_creds s0) (p_host s0) (id_host d) in (r, with_host s0 h')) in
       match r with
       | Err e => (RpErr e, None, s1)
       | Ok _ => entry_reply (do_lookup s1 parent n)
@@ -370,19 +369,19 @@ Definition pstep (cf : cfg) (s : pstate) (q : req) : reply * option N * option N
   | QMkdir parent n mode umask uid gid =>
       match validate cf n with
       | Some e => noslot (RpErr e) s
-      | None => ent (create_then_lookup cf true s uid gid parent n
+      | None => ent (create_then_lookup s uid gid parent n
                        (fun c h d => sys_mkdirat c h d n (N.ldiff mode umask)))
       end
   | QMknod parent n mode rdev umask uid gid =>
       match validate cf n with
       | Some e => noslot (RpErr e) s
-      | None => ent (create_then_lookup cf false s uid gid parent n
+      | None => ent (create_then_lookup s uid gid parent n
                        (fun c h d => sys_mknodat c h d n (N.ldiff mode umask) rdev))
       end
   | QSymlink parent n target uid gid =>
       match validate cf n with
       | Some e => noslot (RpErr e) s
-      | None => ent (create_then_lookup cf true s uid gid parent n
+      | None => ent (create_then_lookup s uid gid parent n
                        (fun c h d => sys_symlinkat c h target d n))
       end
   | QCreate parent n mode umask flags fuse_flags uid gid =>
@@ -415,7 +414,8 @@ Definition pstep (cf : cfg) (s : pstate) (q : req) : reply * option N * option N
                       with_creds uid gid s0 (fun s00 => open_inode cf s00 f flags))
                 end in
               match rf with
-              | Err e => noslot (RpErr e) s3
+              | Err e => (* the client never learns the inode: drop the reference taken by do_lookup *)
+                         noslot (RpErr e) (forget_one s3 f 1)
               | Ok (hi, fl) =>
                   if c_no_open cf then (RpCreate a false (create_opts cf), Some f, Some 0, s3)
                   else let (hk, s4) := insert_handle s3 (new_hdata f hi fl flags) in
